@@ -310,6 +310,10 @@ class Census:
             s, mid = args
             if pv.le(mid, T.length(s), facts):
                 return "precondition: mid %s <= len" % pp(mid)
+        if name in ("[T]::copy_from_slice", "[T]::clone_from_slice", "[T]::swap_with_slice"):
+            a_, b_ = T.length(args[0]), T.length(args[1])
+            if a_ is b_ or (a_.op == "const" and b_.op == "const" and a_.args[1] == b_.args[1]):
+                return "precondition: both slices have length %s" % pp(a_)
         if name.endswith("::unwrap") or name.endswith("::expect"):
             x = args[0]
             vs = ["None", "Some"] if name.startswith("option") else ["Ok", "Err"]
